@@ -69,6 +69,22 @@ theorem C35_iff (env : Env O D) (isFile : O → Bool) (cfg : Algo) (checkers : L
     · rw [hh0] at hdg; cases hdg; exact Or.inl he
     · exact Or.inr ⟨a, ha', dg, by rw [← th_eq_ch env isFile a outs hforms]; exact hdg, he⟩
 
+/-- With the hash function among the checkers (the default: sha256 ∈ sha1, sha256, blake3) the configured algorithms are
+    exactly `build.hashcheckers`. -/
+theorem C35_iff_checkers (env : Env O D) (isFile : O → Bool) (cfg : Algo) (checkers : List Algo) (hashes : List Str)
+    (outs : List O) (hl : LenLaw env checkers outs) (hne : hashes ≠ [])
+    (hforms : ∀ o, outs = [o] → isFile o = true)
+    (hcfg : (targetOutputHash env isFile cfg outs).isSome = true) (hmem : cfg ∈ checkers) :
+    accepts genU genC env isFile cfg checkers hashes outs = true ↔ Spec env isFile checkers hashes outs := by
+  rw [C35_iff env isFile cfg checkers hashes outs hl hne hforms hcfg]
+  constructor
+  · rintro ⟨a, ha, r⟩
+    rcases List.mem_cons.mp ha with rfl | ha'
+    · exact ⟨a, hmem, r⟩
+    · exact ⟨a, ha', r⟩
+  · rintro ⟨a, ha, r⟩
+    exact ⟨a, List.mem_cons_of_mem _ ha, r⟩
+
 /-- The "only if" of the property for EVERY output shape: whatever is accepted is the hex digest of the outputs under the
     configured hash function or a configured checker (in the target-hash or in the checker form). -/
 theorem C35_sound (env : Env O D) (isFile : O → Bool) (cfg : Algo) (checkers : List Algo) (hashes : List Str)
@@ -134,6 +150,29 @@ theorem C35_unprefixed_verbatim (h : Str) (hc : ':' ∉ h) : unprefix genU h = h
 theorem C35_alias_idempotent (hs : List Str) :
     (unprefixedHashes genU (unprefixedHashes genU hs).2).1 = (unprefixedHashes genU hs).1 := by
   rw [genU_eq]; exact unprefixedHashes_idem hs
+
+/-- …but it IS visible to everything that hashes `target.Hashes` after the check has run in the same process: the
+    post-build rule hash written into the stamp of a target the build can modify (post-build function, output_dirs) and
+    the runtime rule hash.  `R` stands for the rule hash as a function of the declared list (injective: C08).  The stamp
+    agrees with what the next process expects exactly when no declared value carries a prefix — otherwise
+    `needsBuilding(postBuild)` is true on every run (observed on the real binary: a genrule with `output_dirs` and
+    `hashes = ["sha256: …"]` re-runs its action on every `plz build`; a C03 matter, reported, not a C35 failure). -/
+theorem C35_alias_observable {α : Type} (R : List Str → α) (hR : Function.Injective R) (hs : List Str) :
+    R (unprefixedHashes genU hs).2 = R hs ↔ ∀ d ∈ hs, unprefix genU d = d := by
+  rw [genU_eq]
+  simp only [unprefixedHashes, UFacts.asCoded, if_true]
+  constructor
+  · intro h
+    have := hR h
+    intro d hd
+    have hm : hs.map (unprefix ⟨true, true, true⟩) = hs.map id := by simpa using this
+    exact List.map_inj_left.mp hm d hd
+  · intro h
+    congr 1
+    have : hs.map (unprefix ⟨true, true, true⟩) = hs.map id := List.map_inj_left.mpr h
+    simpa using this
+
+example : ¬ (∀ d ∈ [['s', ':', ' ', 'a']], unprefix genU d = d) := by decide
 
 /-- Upper-case hex, a leading blank without a colon, or any other character outside `0-9a-f` left after unprefixing:
     the value can never match. -/
@@ -286,6 +325,16 @@ theorem C35_corner_stale_memo :
     (buildTarget genS check true () 'a' ⟨none, fun _ => none⟩).2 = .built := by decide
 
 open Toy in
+/-- The same corner in the default shape of configuration (hash function among the checkers): a lone directory declared
+    by its target hash (the double hash `plz hash` prints) passes a fresh build, but after a rejected restore the first
+    comparison is made against the memoised hash of the poisoned artifact and the checkers only know the direct form. -/
+theorem C35_corner_stale_memo_dir :
+    let check := concreteCheck genU genC env isFile sha256 [sha1, sha256] (fun (_ : Unit) => [dig 'b' sha256])
+      (fun (c : Char) => [(c, false)])
+    (buildTarget genS check true () 'a' ⟨none, fun _ => some 'x'⟩).2 = .failed ∧
+    (buildTarget genS check true () 'a' ⟨none, fun _ => none⟩).2 = .built := by decide
+
+open Toy in
 /-- `--nohash_verification`: the gate lets a mismatching output through and the stamp is written. -/
 theorem C35_corner_noverify :
     acc sha256 [sha256] [dig 'b' sha256] [('a', true)] = false ∧
@@ -338,6 +387,25 @@ example : LenLaw env [sha1, sha256] [('a', true), ('b', false)] := by
       have h : checkerOutputHash env sha256 [('a', true), ('b', false)] = some (dig 'b' sha256) := by decide
       rw [h] at hd; cases hd; rfl
     subst this; decide
+
+/-- hypotheses of `C35_prefixed` / `C35_nonhex_rejected` are satisfiable -/
+example : HexLower (⟨fun _ _ => none, fun _ _ => (), fun _ => ['0', 'a', 'f']⟩ : Env Unit Unit) := by
+  intro d c hc
+  simp only [List.mem_cons, List.not_mem_nil, or_false] at hc
+  rcases hc with rfl | rfl | rfl <;> decide
+
+open Toy in
+/-- hypotheses of `C35_main` / `C35_property` are satisfiable: the decision model is stale-sound on the toy digests -/
+example : StaleSound (concreteCheck genU genC env isFile sha256 [sha1, sha256] (fun (_ : Unit) => [dig 'a' sha1])
+    (fun (c : Char) => [(c, true)])) := by
+  rw [genC_eq]
+  exact concreteCheck_staleSound genU env isFile sha256 [sha1, sha256] _ _ (by intro c; rfl)
+
+open Toy in
+/-- hypotheses of `C35_iff` are satisfiable (two outputs, one of them a directory) -/
+example : (∀ o, [('a', true), ('b', false)] = [o] → isFile o = true) ∧
+    (targetOutputHash env isFile sha256 [('a', true), ('b', false)]).isSome = true :=
+  And.intro (fun o h => by simp at h) (by decide)
 
 open Toy in
 example : acc sha256 [sha1, sha256] [['s', 'h', 'a', '1', ':', ' '] ++ dig 'a' sha1] [('a', true)] = true := by decide
